@@ -27,6 +27,8 @@ const (
 	opShift
 	opRemove
 	opSub
+	opAppendSelf  // Append(f.Values[a:b]...): the argument shares the receiver's array
+	opPrependSelf // Prepend(f.Values[a:b]...)
 )
 
 type fop struct {
@@ -37,9 +39,13 @@ type fop struct {
 func (o fop) String() string {
 	switch o.kind {
 	case opAppend:
-		return fmt.Sprintf("Append(%d fresh values)", o.a)
+		return fmt.Sprintf("Append(%d fresh values%s)", o.a, spareStr(o.b))
 	case opPrepend:
-		return fmt.Sprintf("Prepend(%d fresh values)", o.a)
+		return fmt.Sprintf("Prepend(%d fresh values%s)", o.a, spareStr(o.b))
+	case opAppendSelf:
+		return fmt.Sprintf("Append(f.Values[%d:%d]...)", o.a, o.b)
+	case opPrependSelf:
+		return fmt.Sprintf("Prepend(f.Values[%d:%d]...)", o.a, o.b)
 	case opPop:
 		return "Pop()"
 	case opShift:
@@ -48,6 +54,17 @@ func (o fop) String() string {
 		return fmt.Sprintf("Remove(%d)", o.a)
 	default:
 		return fmt.Sprintf("SubSlice(%d, %d)", o.a, o.b)
+	}
+}
+
+func spareStr(b int) string {
+	switch b {
+	case 0:
+		return ""
+	case 1:
+		return " in a slice with 1 spare element"
+	default:
+		return " in a slice with room for the whole result"
 	}
 }
 
@@ -120,10 +137,14 @@ func applyOp(f *slicez.FlexSlice[int], m *[]int, next *int, o fop, st *fstats) (
 	switch o.kind {
 	case opAppend, opPrepend:
 		vs := fresh(next, o.a)
-		arg := clone(vs)
-		if arg == nil {
-			arg = []int{}
+		spare := 0
+		switch o.b {
+		case 1:
+			spare = 1
+		case 2:
+			spare = n + o.a + 1
 		}
+		arg := append(make([]int, 0, o.a+spare), vs...)
 		name := "Append"
 		if o.kind == opPrepend {
 			name = "Prepend"
@@ -138,7 +159,8 @@ func applyOp(f *slicez.FlexSlice[int], m *[]int, next *int, o fop, st *fstats) (
 		if p {
 			return name + "|panic", name + " panicked at " + common.PanicSite(stack)
 		}
-		for i := range arg { // the caller's argument slice is the caller's: later writes must not show
+		arg = arg[:cap(arg)]
+		for i := range arg { // the caller's argument slice (all of its array) is the caller's: later writes must not show
 			arg[i] = -7
 		}
 		if o.kind == opAppend {
@@ -161,6 +183,37 @@ func applyOp(f *slicez.FlexSlice[int], m *[]int, next *int, o fop, st *fstats) (
 			} else if cap(f.Values) != cp {
 				st.appendRealloc++
 				st.nontrivial++
+			}
+		}
+	case opAppendSelf, opPrependSelf:
+		name := "Append(aliasing argument)"
+		if o.kind == opPrependSelf {
+			name = "Prepend(aliasing argument)"
+		}
+		part := clone((*m)[o.a:o.b])
+		_, stack, p := common.Catch(func() {
+			if o.kind == opAppendSelf {
+				f.Append(f.Values[o.a:o.b]...)
+			} else {
+				f.Prepend(f.Values[o.a:o.b]...)
+			}
+		})
+		if p {
+			return name + "|panic", name + " panicked at " + common.PanicSite(stack)
+		}
+		if o.kind == opAppendSelf {
+			*m = append(clone(*m), part...)
+		} else {
+			*m = append(part, *m...)
+		}
+		if st != nil {
+			st.nontrivial++
+			if o.kind == opPrependSelf {
+				if cp >= n+len(part) {
+					st.prependInCap++
+				} else {
+					st.prependRealloc++
+				}
 			}
 		}
 	case opPop, opShift, opRemove:
@@ -196,9 +249,6 @@ func applyOp(f *slicez.FlexSlice[int], m *[]int, next *int, o fop, st *fstats) (
 		}
 		if ok != wok || (ok && gv != wv) {
 			return name + "|wrong-return", fmt.Sprintf("%s returned (%d, %v), the sequence model says (%d, %v)", o, gv, ok, wv, wok)
-		}
-		if !ok && gv != 0 {
-			return name + "|nonzero-value-on-failure", fmt.Sprintf("%s returned (%d, false), want the zero value", o, gv)
 		}
 		if st != nil && wok {
 			if cp > 8 && n-1 <= cp/4 {
@@ -265,7 +315,7 @@ func battery(f *slicez.FlexSlice[int], m []int, st *fstats) (kind, what string) 
 		if i >= 0 && i < len(m) {
 			wv, wok = m[i], true
 		}
-		if gv != wv || ok != wok {
+		if ok != wok || (ok && gv != wv) { // the value returned with ok == false is not specified
 			return "Get|wrong-return", fmt.Sprintf("Get(%d) on %v = (%d, %v), want (%d, %v)", i, m, gv, ok, wv, wok)
 		}
 	}
@@ -311,6 +361,20 @@ func alphabet(n, sizeCap int) []fop {
 			ops = append(ops, fop{kind: opPrepend, a: k})
 		}
 	}
+	for k := 0; k <= 2; k++ { // the argument slice has spare capacity of its own
+		for sp := 1; sp <= 2; sp++ {
+			if n+k <= sizeCap {
+				ops = append(ops, fop{kind: opAppend, a: k, b: sp}, fop{kind: opPrepend, a: k, b: sp})
+			}
+		}
+	}
+	for a := 0; a < n; a++ { // the argument is a piece of the receiver itself
+		for b := a + 1; b <= n && b <= a+2; b++ {
+			if n+b-a <= sizeCap {
+				ops = append(ops, fop{kind: opAppendSelf, a: a, b: b}, fop{kind: opPrependSelf, a: a, b: b})
+			}
+		}
+	}
 	ops = append(ops, fop{kind: opPop}, fop{kind: opShift})
 	for i := -1; i <= n+1; i++ {
 		ops = append(ops, fop{kind: opRemove, a: i})
@@ -337,6 +401,10 @@ func goTestFor(root rootT, path []fop) string {
 			fmt.Fprintf(&b, "f.Append(fresh(%d)...); ", o.a)
 		case opPrepend:
 			fmt.Fprintf(&b, "f.Prepend(fresh(%d)...); ", o.a)
+		case opAppendSelf:
+			fmt.Fprintf(&b, "f.Append(f.Values[%d:%d]...); ", o.a, o.b)
+		case opPrependSelf:
+			fmt.Fprintf(&b, "f.Prepend(f.Values[%d:%d]...); ", o.a, o.b)
 		case opPop:
 			b.WriteString("t.Log(f.Pop()); ")
 		case opShift:
@@ -461,6 +529,9 @@ func (s *searcher) search(label string, roots []rootT) searchResult {
 					}
 					continue
 				}
+				if o.kind == opAppendSelf || o.kind == opPrependSelf {
+					continue // checked as a transition; its successor (content with repeated values) is not expanded
+				}
 				out[fi] = append(out[fi], succ{key, o, len(f.Values), cap(f.Values)})
 			}
 			mu.Lock()
@@ -490,7 +561,7 @@ func (s *searcher) search(label string, roots []rootT) searchResult {
 }
 
 func opName(o fop) string {
-	return [...]string{"Append", "Prepend", "Pop", "Shift", "Remove", "SubSlice"}[o.kind]
+	return [...]string{"Append", "Prepend", "Pop", "Shift", "Remove", "SubSlice", "Append(aliasing argument)", "Prepend(aliasing argument)"}[o.kind]
 }
 
 func flexSearch(r *common.Run) {
